@@ -348,7 +348,9 @@ def attrEmit (cx : Ctx) (pos : Nat) : AttrVal → Out Emit
   | .lineStringRef idx => do
     let off ← tableOffset cx.lineStrOffsets idx
     let b ← writeUdata cx.endian off cx.enc.word; pure (.ofBytes b)
-  | .string bs => .ok (.ofBytes (bs ++ [0]))
+  | .string bs =>
+    -- the string is null terminated, so it can't contain a null (checked before anything is written)
+    if bs.contains 0 then .err .wInvalidAttributeValue else .ok (.ofBytes (bs ++ [0]))
   | .constClass v => .ok (.ofBytes (Leb.encodeU v))
   | .fileIndex raw => .ok (.ofBytes (Leb.encodeU (raw.getD 0)))
 
@@ -641,6 +643,10 @@ def unitCtx (e : Endian) (strOffs lineStrOffs : List Nat) (u : UnitIn) (p1 : P1)
 sections and the unit's final `UnitOffsets` -/
 def writeUnit (e : Endian) (strOffs lineStrOffs : List Nat) (s : Sec) (u : UnitIn) : Out (Sec × Offs) := do
   let c := u.enc
+  -- "A unit header with any other address size can't be read": the first thing `Unit::write`
+  -- does, before the line program, the header or anything else is written
+  if ¬ (c.addrSize = 1 ∨ c.addrSize = 2 ∨ c.addrSize = 4 ∨ c.addrSize = 8) then
+    .err .wUnsupportedWordSize else
   let unitOff := s.info.length
   let hdr ← unitHeader e c s.abbr.length
   let start := unitOff + initLenSize c.format + hdr.length
